@@ -13,7 +13,6 @@ import (
 )
 
 func flushMemstoreContinuously(db *DB) {
-	defer func() { db.doneFlushChannel <- true }()
 	err := func(db *DB) error {
 		for flushAction := range db.storeFlushChannel {
 			err := executeFlush(db, flushAction)
@@ -25,8 +24,12 @@ func flushMemstoreContinuously(db *DB) {
 	}(db)
 
 	if err != nil {
+		// this must not be deferred behind the done signal below: nobody receives it before Close, the panic would be
+		// parked forever and the next memstore rotation would block while holding the database lock
 		log.Panicf("error while merging sstable at %s, error was %v", db.currentSSTablePath, err)
 	}
+
+	db.doneFlushChannel <- true
 }
 
 func executeFlush(db *DB, flushAction memStoreFlushAction) error {
